@@ -263,7 +263,10 @@ def check(prop, tier, seed, selected, build_dir, workdir, args, t_start):
             cands.append((pname, desc, loc, primary))
         for (pname, desc, loc) in c["unwind_fail"]:
             f = loc.get("file", "")
-            if "/repo/src" in f and "C18" in R.props_of(h):
+            uv = R.HARNESSES.get(h, {}).get("unwind_violation")
+            if "/repo/src" in f and uv:
+                cands.append((pname, "%s: %s at %s:%s (a loop of the queue does not terminate: the call never returns)" % (uv, desc, f, loc.get("line")), loc, uv))
+            elif "/repo/src" in f and "C18" in R.props_of(h):
                 cands.append((pname, "C18: " + desc + " (a retry loop of the queue did not terminate within its bound)", loc, "C18"))
             else:
                 inconclusive.append("%s: unwinding bound too small at %s:%s (%s)" % (h, f, loc.get("line"), desc))
